@@ -40,8 +40,8 @@ class BatchScenario:
         # the loss is a callable *object* carrying attributes a river metric would have (bigger_is_better = True ...):
         # for a plain callable they mean nothing - the loss is used as given
         self.loss_object = kw.get("loss_object", False)
-        # original mode only: the explainer is built with a product MarginalImputer (which the original mode does not use),
-        # and / or its storage holds other rows than the data set being explained - the background of the original mode is
+        # the explainer is built with a product MarginalImputer (used by the default mode, ignored by the original mode),
+        # and / or (original mode only) its storage holds other rows than the data set being explained - the background of the original mode is
         # the data set itself, one common row per evaluation
         self.imputer_kind = kw.get("imputer_kind", None)
         self.foreign = kw.get("foreign", False)
@@ -146,7 +146,7 @@ def run(sc, tape_mode="log", script=None, provider=None):
     if sc.cls == "interval":
         ex = IntervalSage(model, names, loss, interval_length=sc.interval, storage_length=sc.storage_len, **kw)
     else:
-        if sc.imputer_kind == "product" and sc.mode in ("original", "one_original"):
+        if sc.imputer_kind == "product":
             from ixai.storage import BatchStorage
             from ixai.imputer import MarginalImputer
             st_ = BatchStorage(store_targets=True)
@@ -193,7 +193,9 @@ def run(sc, tape_mode="log", script=None, provider=None):
         return [[red(r[nm]) for nm in names] for r in xs], list(ys)
 
     n_eff = sc.n_override if sc.n_override is not None else sc.n_inner
-    trace = {"cls": sc.cls, "d": d, "interval": sc.interval, "storage_len": sc.storage_len, "key": sc.key(), "calls": []}
+    # a user-supplied product imputer is what the default mode samples with; the original mode never uses the imputer
+    trace = {"cls": sc.cls, "d": d, "interval": sc.interval, "storage_len": sc.storage_len, "key": sc.key(), "calls": [],
+             "strategy": "product" if (sc.imputer_kind == "product" and sc.cls == "batch" and sc.mode in ("many", "one")) else "joint"}
     floats_ok = []
     updated = []
     with Tape(mode=tape_mode, script=script, sink=sink) as tape:
